@@ -16,6 +16,7 @@ import (
 	"github.com/markusressel/fan2go/internal/configuration"
 	"github.com/markusressel/fan2go/internal/fans"
 	"github.com/markusressel/fan2go/internal/sensors"
+	"github.com/markusressel/fan2go/internal/ui"
 	"github.com/markusressel/fan2go/internal/util"
 )
 
@@ -240,6 +241,8 @@ type execPrepared struct {
 	ck        int
 	cleanup   func()
 	hook      *int
+	// optional extra liveness check evaluated right after the call (driver exechist: the concurrent logger)
+	extraHang func() string
 }
 
 func execPrep(workDir string, n int, in execIn) execPrepared {
@@ -249,7 +252,7 @@ func execPrep(workDir string, n int, in execIn) execPrepared {
 		panic(err)
 	}
 	path, beh, ck, cleanup, hook := execPrepare(dir, in)
-	return execPrepared{path, beh, ck, cleanup, hook}
+	return execPrepared{path: path, beh: beh, ck: ck, cleanup: cleanup, hook: hook}
 }
 
 // execRun: one real call. When the wall clock exceeds the property's bound the call is repeated once on the same
@@ -342,6 +345,24 @@ func execRunOnce(pr execPrepared, in execIn) (execObs, string) {
 			obs.Ms = int(time.Since(t0) / time.Millisecond)
 		}
 	}
+	if !hung && pn == "" {
+		// ... and neither may the daemon's logger (every goroutine of fan2go logs through internal/ui)
+		d3 := make(chan struct{}, 1)
+		go func() { ui.Warning("verif: logger probe after %s", path); d3 <- struct{}{} }()
+		select {
+		case <-d3:
+		case <-time.After(time.Second):
+			hung = true
+			obs.Msg = "internal/ui logger blocked after the call"
+			obs.Ms = int(time.Since(t0) / time.Millisecond)
+		}
+	}
+	if !hung && pn == "" && pr.extraHang != nil {
+		if m := pr.extraHang(); m != "" {
+			hung = true
+			obs.Msg = m
+		}
+	}
 	if hook != nil {
 		obs.HookHit = *hook
 	}
@@ -416,7 +437,14 @@ func init() {
 				pickOut := func() [][2]int { return outs[rng.Intn(len(outs))] }
 				// --- through SafeCmdExecution with short timeouts ---
 				for _, out := range outs {
-					add(execIn{Api: 0, T: pickT(), Kind: "exit", Code: 0, Out: out}, "exit0")
+					t, total := pickT(), 0
+					for _, r := range out {
+						total += r[1]
+					}
+					if total > 100000 {
+						t = 2000 // producing megabytes through head|tr can take longer than 0.5 s on a loaded machine
+					}
+					add(execIn{Api: 0, T: t, Kind: "exit", Code: 0, Out: out}, "exit0")
 				}
 				for _, code := range []int{1, 2, 126, 127, 255} {
 					add(execIn{Api: 0, T: pickT(), Kind: "exit", Code: code}, "nonzero", "no-output")
